@@ -184,6 +184,10 @@ impl HitObjectsState {
         point_str: &str,
         offset: Pos,
     ) -> Result<(), ParseHitObjectsError> {
+        // A previous slider that failed to parse in a later segment may have
+        // left the points of its earlier segments behind.
+        self.curve_points.clear();
+
         let f = |this: &mut Self, point_split: &[&str]| {
             let mut start_idx = 0;
             let mut end_idx = 0;
